@@ -65,6 +65,30 @@ Proof.
   destruct (N.eqb f g); [apply HPP; exact H2 | exact I].
 Qed.
 
+Lemma inv_ovr_intro (B : N -> Z -> Prop) g (P : Z -> Prop) s : Inv B s -> P (get g s) -> Inv (ovr g P B) s.
+Proof.
+  intros [H Ht] HP. split; [|exact Ht]. intro f. split; [apply H|]. destruct (N.eqb f g) eqn:E; [|exact I].
+  apply N.eqb_eq in E. subst f. exact HP.
+Qed.
+
+(* changing the predicate map below an outer constraint *)
+Lemma inv_ovr_map (B B' : N -> Z -> Prop) g (P : Z -> Prop) s : (Inv B s -> Inv B' s) -> Inv (ovr g P B) s -> Inv (ovr g P B') s.
+Proof. intros HB H. apply inv_ovr_intro; [apply HB; eapply inv_ovr_base; exact H | eapply inv_ovr_get; exact H]. Qed.
+
+(* intervals of the byte-sized cycle counter: no wrap-around when the bounds stay inside [0, 255] *)
+Definition cyc (lo hi : Z) (c : Z) : Prop := lo <= c <= hi.
+Lemma cyc_add8 lo hi c e el eh : cyc lo hi c -> el <= e <= eh -> 0 <= lo + el -> hi + eh <= 255 -> cyc (lo + el) (hi + eh) (add8 c e).
+Proof. unfold cyc, add8. intros. rewrite Z.mod_small by lia. lia. Qed.
+Lemma cyc_sub8 lo hi c e el eh : cyc lo hi c -> el <= e <= eh -> 0 <= lo - eh -> hi - el <= 255 -> cyc (lo - eh) (hi - el) (sub8 c e).
+Proof. unfold cyc, sub8. intros. rewrite Z.mod_small by lia. lia. Qed.
+Lemma cyc_weaken lo hi lo' hi' c : cyc lo hi c -> lo' <= lo -> hi <= hi' -> cyc lo' hi' c.
+Proof. unfold cyc. lia. Qed.
+
+Lemma get_set_same f v s : get f (set f v s) = v.
+Proof. unfold get, set; simpl. rewrite N.eqb_refl. reflexivity. Qed.
+Lemma get_set_other f g v s : N.eqb f g = false -> get f (set g v s) = get f s.
+Proof. intro E. unfold get, set; simpl. rewrite E. reflexivity. Qed.
+
 Lemma inv_log (B : N -> Z -> Prop) e s : ev_ok e -> Inv B s -> Inv B (log e s).
 Proof. intros He [H Ht]. split; [intro f; apply H | simpl; constructor; assumption]. Qed.
 Lemma inv_upd (B : N -> Z -> Prop) a v s : Inv B s -> Inv B (upd a v s).
@@ -378,13 +402,41 @@ Ltac prove_B :=
   end
 with ovr_hook := fail.
 
+(* goal: [P v] for the constraint P recorded on an assigned field *)
+Ltac pred_goal :=
+  cbv beta;
+  lazymatch goal with
+  | |- True => exact I
+  | |- rng _ _ => solve_rng
+  | |- ?a = ?a => reflexivity
+  | |- _ => pred_hook
+  end
+with pred_hook := fail.
+
+(* goal: [Inv B' (set f v s0)] from H : Inv B s0, where B' is B except possibly for the constraint on f *)
+Ltac upd_inv H :=
+  lazymatch goal with
+  | |- Inv (ovr ?g ?P' ?B') (set ?f ?v ?s0) =>
+      apply inv_ovr_intro;
+      [ upd_inv constr:(inv_ovr_base _ _ _ _ H)
+      | let b := eval cbv in (N.eqb g f) in
+        lazymatch b with
+        | true => change (P' v); pred_goal
+        | false => change (P' (get g s0)); exact (inv_ovr_get _ _ _ _ H)
+        end ]
+  | |- Inv (Bty ?fw) (set ?f ?v ?s0) => apply inv_set; [ exact H | prove_B ]
+  end.
+
 Ltac solve_side :=
   lazymatch goal with
   | |- rng _ _ => solve_rng
   | |- Inv _ _ => eassumption
   | |- True => exact I
+  | |- (_ <= _)%Z => side_hook
+  | |- (_ < _)%Z => side_hook
   | |- _ => idtac
-  end.
+  end
+with side_hook := idtac.
 
 Ltac call_prim :=
   first [ eapply safe_mem_read | eapply safe_mem_write | eapply safe_bus_read | eapply safe_bus_write
@@ -410,7 +462,7 @@ Ltac safe_step call :=
       | H : Inv ?B s0 |- _ =>
           let Hn := fresh "Hi" in
           first [ set_hook Q f v s0 b H
-                | assert (Hn : Inv B (set f v s0)) by (apply inv_set; [exact H | prove_B]);
+                | assert (Hn : Inv B (set f v s0)) by (upd_inv H);
                   change (safe Q (b (set f v s0))); cbv beta;
                   let s1 := fresh "s" in generalize (set f v s0) Hn; clear Hn; intros s1 Hn ]
       end
@@ -424,7 +476,7 @@ Ltac safe_step call :=
           | H : Inv ?B _ |- _ =>
               let Hk := fresh "Hk" in
               assert (Hk : forall s1, Inv B s1 -> safe Q (x' s1));
-              [ let s1 := fresh "s" in let Hi := fresh "Hi" in intros s1 Hi; cbv beta delta [x']; clear x' | clearbody x' ]
+              [ let s1 := fresh "s" in let Hi := fresh "Hi" in intros s1 Hi; cbv beta delta [x']; clear x' | cont_done x' ]
           end
       | ?T -> st -> res _ =>
           let n := lazymatch T with w8 => constr:(8) | w16 => constr:(16) | w32 => constr:(32) | w64 => constr:(64) end in
@@ -433,12 +485,22 @@ Ltac safe_step call :=
               let Hk := fresh "Hk" in
               assert (Hk : forall a1 s1, rng n a1 -> Inv B s1 -> safe Q (x' a1 s1));
               [ let a1 := fresh "a" in let s1 := fresh "s" in let Ha := fresh "Ha" in let Hi := fresh "Hi" in
-                intros a1 s1 Ha Hi; cbv beta delta [x']; clear x' | clearbody x' ]
+                intros a1 s1 Ha Hi; cbv beta delta [x']; clear x' | cont_done x' ]
+          end
+      | bool -> w8 -> w16 -> w16 -> w32 -> st -> res _ =>
+          (* the join point after the addressing-mode switch of Step: (pageCrossed, arg8, arg16, addr, ea) *)
+          lazymatch goal with
+          | H : Inv ?B _ |- _ =>
+              let Hk := fresh "Hk" in
+              assert (Hk : forall a1 a2 a3 a4 a5 s1, rng 8 a2 -> rng 16 a3 -> rng 16 a4 -> rng 24 a5 -> Inv B s1 -> safe Q (x' a1 a2 a3 a4 a5 s1));
+              [ let a1 := fresh "a" in let a2 := fresh "a" in let a3 := fresh "a" in let a4 := fresh "a" in let a5 := fresh "a" in
+                let s1 := fresh "s" in let Hi := fresh "Hi" in
+                intros a1 a2 a3 a4 a5 s1 ? ? ? ? Hi; cbv beta delta [x']; clear x' | cont_done x' ]
           end
       | _ => idtac
       end
   | |- safe _ (if ?c then _ else _) => case c
-  | |- safe _ (Ok _ _) => cbv beta; split; [ res_goal | eassumption ]
+  | |- safe _ (Ok _ _) => cbv beta; split; [ res_goal | first [ eassumption | ok_hook ] ]
   | |- safe _ Panic => fail 1 "symbolic execution reached Panic"
   | |- safe _ ?t =>
       let h := head_of t in
@@ -447,6 +509,42 @@ Ltac safe_step call :=
                     | cbv beta delta [h] ]
             | call tt; solve_side ]
   end
-with set_hook Q f v s0 b H := fail.
+with set_hook Q f v s0 b H := fail
+with cont_done x := clearbody x
+with ok_hook := fail.
+
+(* [get_pred_pf H g] : from H : Inv B s, the proof of [P (get g s)] for the constraint P recorded on field g *)
+Ltac get_pred_pf H g :=
+  lazymatch type of H with
+  | Inv (ovr ?g1 ?P ?B1) ?s =>
+      let b := eval cbv in (N.eqb g g1) in
+      lazymatch b with
+      | true => constr:(inv_ovr_get B1 g1 P s H)
+      | false => get_pred_pf constr:(inv_ovr_base B1 g1 P s H) g
+      end
+  end.
+
+(* the predicate map B with the constraint on field f replaced by Pn *)
+Ltac subst_pred B f Pn :=
+  lazymatch B with
+  | ovr ?g ?P ?B1 =>
+      let b := eval cbv in (N.eqb g f) in
+      lazymatch b with
+      | true => constr:(ovr g Pn B1)
+      | false => let B1' := subst_pred B1 f Pn in constr:(ovr g P B1')
+      end
+  | _ => B
+  end.
+
+(* the assignment [set f v s0] establishes the NEW constraint Pn on f (everything else is carried over) *)
+Ltac set_with_pred Q f v s0 b H Pn :=
+  lazymatch type of H with
+  | Inv ?B _ =>
+      let B' := subst_pred B f Pn in
+      let Hn := fresh "Hi" in
+      assert (Hn : Inv B' (set f v s0)) by (upd_inv H);
+      change (safe Q (b (set f v s0))); cbv beta;
+      let s1 := fresh "s" in generalize (set f v s0) Hn; clear Hn; intros s1 Hn
+  end.
 
 Ltac safe_run call := cbv beta iota delta [seg_nil orb]; repeat (safe_step call).
